@@ -282,7 +282,12 @@ class HierDictDocument(DictDocument):
                         retval = inst
 
                 else:
-                    retval = self.from_serstr(cls, inst)
+                    try:
+                        retval = self.from_serstr(cls, inst)
+                    except (TypeError, AttributeError) as e:
+                        # a value of the wrong kind (e.g. a list where text is
+                        # expected) got this far because validation is off.
+                        raise ValidationError([key, inst])
 
         # validate native type
         if validator is self.SOFT_VALIDATION:
